@@ -14,7 +14,9 @@ META = {
             "carried in the case (value: membership in the set of allowed inputs).",
     "note": "Bounded: sample level 2 inputs x 3 time points and 3 inputs x 2 time points exhaustively with every reachable "
             "iterator state x {Next, Seek(t)}; 4 inputs x 6 time points x 3 sample types by seeded simulation; chunk level 2-3 inputs x 3 "
-            "time points (4 in the thorough tier) exhaustively, 4x6 by simulation; set level 0-4 sets (5-6 thorough) over 3 label sets, "
+            "time points (4 in the thorough tier) exhaustively, 2 inputs x 3 time points x int/float histograms x 2 counter levels per "
+            "input (inputs at different levels make the merged stream contain counter resets, i.e. chunks cut by the histogram appender "
+            "without recoding), 3x6 with levels by simulation; set level 0-4 sets (5-6 thorough) over 3 label sets, "
             "limits 0-2. Iterator errors are out of scope (C54). Counter-reset hints and start timestamps are not compared. The series "
             "limit and the concatenating merger are outside the property statement (drift only). The defects found with this check (KF-C19-1: a "
             "sample at math.MinInt64 skipped by chainSampleIterator.Next; KF-C19-2: re-used iterator object, first call Seek(MinInt64)) are "
@@ -60,12 +62,13 @@ def run(ctx):
         (("merge", "Compact", "MC_compact_quick.cfg"), dict(workers=W, timeout=1500)),
         (("merge", "Compact", "MC_compact_k3.cfg"), dict(workers=W, timeout=1500)),
         (("merge", "Compact", "MC_compact_t4.cfg"), dict(workers=W, timeout=1500)),
-        (("merge", "Compact", "SIM_compact.cfg"), dict(simulate=(15 if q else 700), depth=25, workers=W,
+        (("merge", "Compact", "MC_compact_lv.cfg"), dict(workers=W, timeout=1500)),
+        (("merge", "Compact", "SIM_compact.cfg"), dict(simulate=(15 if q else 700), depth=19, workers=W,
                                                         timeout=(200 if q else 1500))),
         # series-set level
         (("merge", "Merge", "MC_sets_quick.cfg"), dict(workers=W, timeout=1500)),
     ]
-    names = ["MC_chain_quick", "MC_chain_k3", "MC_chain_reuse", "SIM_chain", "MC_compact_quick", "MC_compact_k3", "MC_compact_t4", "SIM_compact",
+    names = ["MC_chain_quick", "MC_chain_k3", "MC_chain_reuse", "SIM_chain", "MC_compact_quick", "MC_compact_k3", "MC_compact_t4", "MC_compact_lv", "SIM_compact",
              "MC_sets_quick"]
     if not q:
         jobs += [(("merge", "Chain", "MC_chain_big.cfg"), dict(workers=W, timeout=3000)),
